@@ -119,7 +119,7 @@ from ..ast.visitor import DefaultTransformVisitor
 from ..number import REAL
 from ..number.context.context import Context
 from ..utils import Gensym
-from .utils import operands, rebuild
+from .utils import clone, operands, rebuild
 
 
 @dataclasses.dataclass
@@ -416,6 +416,12 @@ class _RoundElimInstance(DefaultTransformVisitor):
     # ------------------------------------------------------------------
     # Sentinel-ctx propagation for nested expression positions where
     # statement-level hoisting would be unsound.
+
+    def _visit_context(self, stmt: ContextStmt, ctx: Any):
+        # The context expression is evaluated exactly and under no scope
+        # (`ContextUse` records no use site in it), so nothing in it rounds.
+        body, _ = self._visit_block(stmt.body, ctx)
+        return ContextStmt(stmt.target, clone(stmt.ctx), body, stmt.loc), ctx
 
     def _visit_while(self, stmt: WhileStmt, ctx: Any):
         # The condition is re-evaluated every iteration, but a preamble lands
